@@ -71,7 +71,14 @@ func NewExec(sc map[string]string, sleeps map[string]int) *Exec {
 	return x
 }
 
-type TaskErr struct{ Task string }
+// TaskErr is the error a task stub returns. With Ctxish it also matches context.Canceled under
+// errors.Is (a task that wraps the error of a context of its own, while the directive's context is alive).
+type TaskErr struct {
+	Task   string
+	Ctxish bool
+}
+
+func (e *TaskErr) Is(target error) bool { return e.Ctxish && target == context.Canceled }
 
 func (e *TaskErr) Error() string { return "task " + e.Task + " failed" }
 
@@ -128,11 +135,13 @@ func (x *Exec) Call(id string, nouts int, args ...string) ([]string, error) {
 	defer x.end(id)
 	switch x.Scenario[id] {
 	case "err":
-		return make([]string, nouts), &TaskErr{id}
+		return make([]string, nouts), &TaskErr{Task: id}
+	case "err-ctx":
+		return make([]string, nouts), &TaskErr{Task: id, Ctxish: true}
 	case "panic":
 		panic(PanicVal{id})
 	case "panic-err":
-		panic(&TaskErr{id})
+		panic(&TaskErr{Task: id})
 	case "panic-pe":
 		panic(&cff.PanicError{Value: PanicVal{id}})
 	case "panic-str":
@@ -159,7 +168,7 @@ func (x *Exec) Pred(id string, args ...string) bool {
 	case "panic":
 		panic(PanicVal{id})
 	case "panic-err":
-		panic(&TaskErr{id})
+		panic(&TaskErr{Task: id})
 	case "panic-pe":
 		panic(&cff.PanicError{Value: PanicVal{id}})
 	case "panic-str":
@@ -578,7 +587,7 @@ class GenFlow:
             if r.random() < 0.3:
                 out.append(("cancel", {"t%d" % t["id"]: "cancel"}))
             if t["haserr"]:
-                out.append(("err", {"t%d" % t["id"]: "err"}))
+                out.append(("err", {"t%d" % t["id"]: r.choice(["err", "err", "err-ctx"])}))
         if not quick:
             for _ in range(4):
                 sc = {}
@@ -753,6 +762,16 @@ def gen_flows(seed, n, rich=True):
             base.params, base.results = [0], [11]
             base.tasks = [dict(ins=[0], outs=[k + 1], pred=None, invoke=False) for k in range(10)] + [dict(ins=list(range(1, 11)), outs=[11], pred=None, invoke=False)]
             base.ntypes = 12
+        fanin = rich and len(flows) % 24 in (11, 19)
+        if fanin:
+            # a task that consumes several outputs of each of several providers (the Dependencies list then
+            # names providers repeatedly: its order, de-duplicated or not, must be the same in every run)
+            base = flowgen.Flow()
+            base.params, base.results = [0], [8]
+            base.tasks = [dict(ins=[0], outs=[1, 2], pred=None, invoke=False), dict(ins=[0], outs=[3, 4], pred=None, invoke=False),
+                          dict(ins=[0], outs=[5], pred=None, invoke=False), dict(ins=[0], outs=[6, 7], pred=None, invoke=False),
+                          dict(ins=[7, 1, 4, 2, 5, 3, 6], outs=[8], pred=None, invoke=False)]
+            base.ntypes = 9
         gf = GenFlow(len(flows), base, r, rich=rich)
         if wide:
             gf.has_conc, gf.bare, gf.wide = False, False, True
